@@ -58,6 +58,12 @@ def _run_main(ctx):
                         "per-operation timeout 0 = maximum is exercised only as a per-operation value"]
     if ctx.replay:
         rp = json.load(open(ctx.replay))["scenario"]
+        if rp.get("kind") == "next-timeout":
+            for r in ctx.run_harness("c05next", []):
+                ctx.count()
+                if not r["ok"] and r["variant"] == rp["variant"]:
+                    ctx.violation(r["sig"], r["detail"], rp)
+            return
         for _ in range(2):  # V2: timing candidates must reproduce
             res = ctx.run_harness("fault", [rp], env={"VERIF_WORKERS": "1"})
             ctx.count()
@@ -94,6 +100,19 @@ def _run_main(ctx):
         else:
             unrepro.append({"scenario": sc, "first": rr["detail"][:300]})
     ctx.notes["unreproduced_candidates"] = unrepro
+    # callback sends: the timeout a callback sets for the step after it (directed dialogues, see c05next.go)
+    resn = ctx.run_harness("c05next", [], timeout=300)
+    if len(resn) != 6:
+        raise ToolError("c05next answered %d of 6; stderr:\n%s" % (len(resn), ctx.last_stderr[-2000:]))
+    for rr in resn:
+        ctx.count()
+        ctx.nontriv("next-timeout/" + rr["variant"])
+        if rr.get("sig") == "TOOL":
+            raise ToolError(rr["detail"])
+        if not rr["ok"]:
+            again = [x for x in ctx.run_harness("c05next", [], timeout=300) if x["variant"] == rr["variant"] and not x["ok"]]
+            if again:
+                ctx.violation(again[0]["sig"], again[0]["detail"], {"kind": "next-timeout", "variant": rr["variant"]})
     ctx.traces_validated = len(scns)
     ctx.sample({"scenario": scns[len(scns) // 2]})
     ctx.sample({"operation": ops[1]})
